@@ -149,48 +149,15 @@ def has_class_cycle(fam) -> bool:
     return any(i in reach(i) for i in range(n))
 
 
-NESTED_OF_ENTRY = {"from_msgpack": "from_dict_msgpack", "from_json": "from_dict_json", "from_toml": "from_dict_toml"}
-
-
-def variant_inherits_method(fam, snap, op) -> bool:
-    """some class of a discriminated hierarchy has no own nested unpacker of the op's format while one of its
-    ancestors has: the dispatcher's fast path then runs the ancestor's code on the variant"""
-    m = re.search(r"\.(from_\w+)\(", op)
-    name = NESTED_OF_ENTRY.get(m.group(1)) if m else None
-    if not name:
-        return False
-    cl = fam["classes"]
-    for c in cl:
-        own = snap.get(c["name"])
-        if not own or c["parent"] is None or name in own["m"]:
-            continue
-        p = c["parent"]
-        while p is not None:
-            if name in snap.get(cl[p]["name"], {"m": {}})["m"]:
-                return True
-            p = cl[p]["parent"]
-    return False
-
-
 def classify(fam, op, got, exp, got_aux, exp_aux, got_snap, exp_snap, src="") -> dict:
     """signature of a difference between the family under test (`got`) and the fresh eager twin (`exp`).
     kind is one of the known-finding kinds only when the precise predicate of that finding holds on the
     side that failed; otherwise 'history-dependence' (= a violation)."""
     sig = {"kind": "history-dependence", "got": got[1] if got[0] == "EXC" else "OK", "exp": exp[1] if exp[0] == "EXC" else "OK"}
-    attr_err = any(o[0] == "EXC" and len(o) > 3 and o[3] == "AttributeError" for o in (got, exp))
-    if "Discriminator(" in src and not attr_err:
-        # (a missing method - AttributeError - is a different failure: not this finding)
-        for side, snap in (("family", got_snap), ("twin", exp_snap)):
-            if variant_inherits_method(fam, snap, op):
-                return {**sig, "kind": "discriminator-variant-runs-inherited-method", "side": side}
     for side, out, aux, snap in (("family", got, got_aux, got_snap), ("twin", exp, exp_aux, exp_snap)):
         other = exp if side == "family" else got
         if out[0] != "EXC" or out == other:
             continue
-        if out[1] == "RecursionError" and "Discriminator(" in src and re.search(r"\.from_(?!dict\()\w+\(", op):
-            # the registry of discriminated subtypes is shared by all formats: once another format filled it,
-            # Sub.__mashumaro_from_dict_<fmt>__ resolves through the MRO to the base class' dispatcher
-            return {**sig, "kind": "discriminator-registry-shared-across-formats", "side": side}
         if out[1] == "RecursionError":
             if aux.get("rec") == "redispatch" and has_spec_stub(snap):
                 # the stub installed for a specialised method G.__mashumaro_*_<md5>__ rebuilds the
